@@ -196,7 +196,8 @@ TYPO_PARAS: list[tuple[str, list[str]]] = [
     ("dots-then-quote", ['qaa..."qab', 'qac"', "qad...'qae'", "qaf"]),
     ("quote-then-dots", ['"qaa"...qab', "'qac'...", "qad"]),
     ("ellipsis-char", ['qaa…"qab"', "qac…'qad'", "“qae”…"]),
-    ("dots-paren", ["qaa...", "(qab)", "qac...", '"qad"', "qae...", "[qaf](u)", "qag"]),
+    ("dots-paren", ["qaa...", "(qab)", "qac...", '"qad"', "qae...", "(qaf)"]),
+    ("dots-paren-link", ["qaa...", "(qab)", "[qac](u)", "qad...", "(qae)"]),
     ("tag-and-marker-words", ["qaa", "{% qza %}", "qab", "2019.", "qac", "|", "qad", "3)", "qae"]),
 ]
 
